@@ -69,6 +69,10 @@ claim("C18", "runtime monitoring: lifecycle model over all ordered client-type p
       "See notes/reports/C18.md. Create/upgrade/toggle over all 16 ordered pairs of {Tendermint, BSC, ETH, TSS} with valid and invalid contents plus random sequences; success => stored client/consensus state equal the proposal, the new type's initialisation present, Status Active, a real proof at the installed height verifies after the delay (ICS-23 from a partner chain / generated Merkle-Patricia state / TSS signer), a valid update from the authorised account succeeds; failure => the client prefix of the store is byte-identical.",
       "A valid proposal is not required to succeed (only counted).")
 
+claim("C15", "runtime monitoring: real governance end to end in crash-isolated child processes (MsgSubmitProposal incl. the SDK's submission-time dry run, MsgVote, clock jump, real EndBlock/BeginBlock) and InitChain of generated genesis files that pass ValidateGenesis; a panic or a dead child outside transaction recovery is the violation",
+      "See notes/reports/C15.md. Generated proposal contents for all 4 XIBC client proposals x 4 client-state types with degenerate-but-valid shapes and all 8 aggregate proposals, parameter values for rvesting/aggregate through param-change proposals, genesis states of the three modules; several proposals in flight so that state changes between submission and execution; every case is logged before execution, children that die are the witness. Contents whose submission dry run panics inside DeliverTx (recovered) are reported as latent, not as violations.",
+      "State-independent handler panics cannot reach EndBlock under cosmos-sdk v0.45.2 (the submission dry run refuses them); they are counted as latent.")
+
 # optional per-agent additions are appended by later edits of this file
 exec(open('/verif/scripts/manifest_more.py').read()) if __import__('os').path.exists('/verif/scripts/manifest_more.py') else None
 
